@@ -16,12 +16,18 @@ checks = {
  "C06": dict(level="model_checking",
    text="Bounded model checking of every stage under a maximally permissive environment (early close, consumers that stop, cancel at any step, all as solver choices): no panic, prefix property, and at every quiescent state closure + goroutine exit after drain or after cancel. Bounds: capacity 0..1, 1..2 inputs; generators and clocked stages for runs of up to K steps.",
    technique="SSA-to-automata extraction + SMT-based bounded model checking with symbolic schedule (z3)", ref="DESIGN.md §4, §5 C06", note=BMC_NOTE),
+ "C07": dict(level="model_checking",
+   text="Bounded model checking of Map/FMap under Lift/LiftF (fail-fast) and Try/TryF, Unfold and Emit under Lift: the failing set is an uninterpreted predicate E(x), so every subset of failing positions is covered by one query; values, errors (verr{x}), both consumers' interleavings and the schedule are solver variables. Fail-fast: results before the first failure, that error exactly once, nothing processed further (ghost call counter), both channels closed; Try: value stream = image of the non-failing subsequence, error stream = errors of the failing one, both in input order, both closed. Bounds: capacity 0..2, n 0..3 (4 thorough). Emit/Unfold under Try and StdErr as the reader are not covered.",
+   technique="SSA-to-automata extraction + SMT-based bounded model checking with symbolic schedule and uninterpreted failure predicate (z3)", ref="DESIGN.md §4, §5 C07", note=BMC_NOTE),
  "C08": dict(level="model_checking",
    text="Bounded model checking of pipe.New's pump goroutine with its linked queue in bounded arenas (symbolic slot indices): FIFO/exactly-once, nothing invented, sender never blocks while the context is live (receiver present or absent), completed sends survive cancel, sender-side close is a clean end of stream. Bounds: capacity 0..2, 1..2 sends (3 thorough).",
    technique="SSA-to-automata extraction + SMT-based bounded model checking with symbolic schedule and arena-allocated heap (z3)", ref="DESIGN.md §4, §5 C08", note=BMC_NOTE),
  "C11": dict(level="model_checking",
    text="Bounded model checking of Unfold and Emit with a virtual clock that is a solver variable (lax: ticks of any size at any step; urgent: time moves only when nothing else can): exact successive sequence, index/Try skipping, at most one application per elapsed tick, j-th value not before (j+1) ticks, exactly at (j+1) ticks for a consumer that keeps up, stop and close after cancel. All runs of up to K steps.",
    technique="SSA-to-automata extraction + SMT-based bounded model checking with symbolic schedule and symbolic time (z3)", ref="DESIGN.md §4.5, §5 C11", note=BMC_NOTE),
+ "C12": dict(level="model_checking",
+   text="Bounded model checking of Join (copier goroutines, WaitGroup, closer): k in 0..3 inputs with their own producers or pre-filled, values tagged by input; the consumer's per-input cursor asserts order/nothing foreign/nothing twice; Invariant: closed(out) implies every input closed, drained and its producer done; Final: everything delivered, out closed, goroutines gone. Unsynchronised accesses of a cell shared by library goroutines are separate steps (so a lost update is a reachable interleaving). Bounds: k<=2 with capacities {0,1} and up to 2-3 elements in total, k=3 small.",
+   technique="SSA-to-automata extraction + SMT-based bounded model checking with symbolic schedule, WaitGroup model and shared-cell steps (z3)", ref="DESIGN.md §4, §5 C12", note=BMC_NOTE),
  "C13": dict(level="model_checking",
    text="Bounded model checking of Throttling (pacer + data goroutine) with the URGENT virtual clock (synctest's rule), pre-filled input, always-ready consumer: order, exactly-once, close, and floor(i/ops)*interval <= d[i] <= floor(i/ops)*interval + interval for every element. The per-window burst bound under arbitrary arrival patterns (lax clock) is NOT established: its query did not finish (stated in DESIGN.md 17 and in the evidence).",
    technique="SSA-to-automata extraction + SMT-based bounded model checking with symbolic schedule and symbolic time (z3)", ref="DESIGN.md §4.5, §5 C13, §17", note=BMC_NOTE),
